@@ -298,7 +298,12 @@ def cps_coq(cps):
     return C.clist(["(%s, %s)" % (C.cnat(k), C.cbool(mode != "flush")) for k, mode, _ in cps])
 
 
-def chain_check(case, ref, r0, cps, reps):
+def inst_of(case):
+    sg = "SAll" if case["strategy"] == "all" else "SLatest"
+    return "fixed_proto %s %s %s" % (sg, C.clist([C.cnat(x) for x in nres_of(case)]), C.clist([C.cbool(b) for b in fresh_of(case)]))
+
+
+def chain_check(case, ref, r0, cps, reps, refname=None):
     """Boolean Coq term: the model agrees with everything observed along one crash chain
     (reps[i] = report of run number i; a run whose directory is a snapshot has no report of its own
     killed predecessor beyond the traced prefix)."""
@@ -328,7 +333,10 @@ def chain_check(case, ref, r0, cps, reps):
                 oc = "(Some (%s, %s))" % (C.cnat(rep["final"]["n_samples"]), C.cbool(rep["final"]["hash"] == ref["final"]["hash"]))
             else:
                 oc = "None"
-            parts.append("final_ok %s %s %s %s %s" % (head, C.cbool(resume), obs, t, oc))
+            if refname:
+                parts.append("final_ok_with %s %s %s %s %s %s %s %s %s" % (inst, refname, n, C.cbool(r0), before, C.cbool(resume), obs, t, oc))
+            else:
+                parts.append("final_ok %s %s %s %s %s" % (head, C.cbool(resume), obs, t, oc))
     return "(" + " && ".join("(%s)" % p for p in parts) + ")"
 
 
@@ -483,10 +491,12 @@ class C25(C.Check):
         t3 = time.time()
 
         checks, meta = [], []
+        header = HEADER
         modes, nontrivial, snapsha = {}, set(), {}
         for gi, (case, corp, plan, modelled, _) in enumerate(groups):
             if modelled:
                 checks.append(chain_check(case, refs[gi], False, [], [refs[gi]]))
+                header += "Definition ref%d := Eval vm_compute in (reference_outcome %s %s).\n" % (gi, inst_of(case), C.cnat(case["n_iter"]))
                 meta.append({"what": "operation sequence of the uninterrupted run", "case": case, "ops": refs[gi]["ops"]})
         n_real = 0
         for (gi, cps, r0, how), reps in zip(metas, reps2):
@@ -506,7 +516,7 @@ class C25(C.Check):
                                                "snapshot of the same crash point" % (cps[0][0], cps[0][1]))
             self.obs.append((case, ref, cps, r0, reps))
             if modelled:
-                checks.append(chain_check(case, ref, r0, cps, reps))
+                checks.append(chain_check(case, ref, r0, cps, reps, refname="ref%d" % gi))
                 meta.append({"what": "crash chain (%s)" % how + (", first run with resume=True" if r0 else ""), "case": case,
                              "cps": cps, "pre": {k: v for k, v in reps[-1]["pre"].items() if k != "loadable"},
                              "final_ops": reps[-1]["ops"], "outcome": reps[-1]["outcome"]})
@@ -514,7 +524,7 @@ class C25(C.Check):
                 modes[m] = modes.get(m, 0) + 1
             if any(0 < k < len(ref["ops"]) for k, _, _ in cps):
                 nontrivial.add((gi, r0, tuple(cps)))
-        bad = C.eval_cases(self.prop, "corr", HEADER, checks, shard=25)
+        bad = C.eval_cases(self.prop, "corr", header, checks, shard=25)
         res.notes.append("wall: reference+snapshot runs %.1fs, %d restarts/real chains %.1fs, model evaluation in coqc %.1fs"
                          % (t1 - t0, len(jobs), t3 - t2, time.time() - t3))
         for i in bad[:4]:
